@@ -26,8 +26,8 @@ class Layout:
     size:   None (variable), int, or callable(owner SObj) -> int/term
     The link to the real construct tree is the K2 obligation of the same name."""
 
-    def __init__(self, name, fields, size=None, minsize=None):
-        self.name, self.fields, self.size, self.minsize = name, fields, size, minsize
+    def __init__(self, name, fields, size=None, minsize=None, nf=None):
+        self.name, self.fields, self.size, self.minsize, self.nf = name, fields, size, minsize, nf
 
 
 LAYOUTS = {}
@@ -42,6 +42,7 @@ class UFMaker:
 
     def __init__(self, ctx, arr, pos, prefix):
         self.ctx, self.arr, self.pos, self.prefix = ctx, arr, pos, prefix
+        self.uf_args = (arr, to_int(pos))
 
     def fname(self, name):
         return name
@@ -117,6 +118,8 @@ class Calls(DataModels):
         if isinstance(func, Opaque):
             raise Unsupported('call of opaque %s (line %s)' % (func.what, ln))
         name = getattr(func, '__name__', None)
+        if getattr(func, '__self__', None) is int and name == 'from_bytes':
+            return _b_from_bytes(self, I, args, kw, node)
         if func in _BUILTIN_TABLE:
             return _BUILTIN_TABLE[func](self, I, args, kw, node)
         if isinstance(func, type):
@@ -620,7 +623,9 @@ class Calls(DataModels):
 
     def layout_value(self, I, lay, mk):
         if isinstance(lay.fields, dict):
-            return SRec({k: s.make(mk, '%s.%s' % (lay.name, k)) for k, s in lay.fields.items()}, 'Container')
+            rec = SRec({k: s.make(mk, '%s.%s' % (lay.name, k)) for k, s in lay.fields.items()}, 'Container')
+            array_facts(I, lay, rec)
+            return rec
         return lay.fields.make(mk, lay.name)          # single-value struct
 
     def layout_of_real(self, I, struct):
@@ -630,6 +635,22 @@ class Calls(DataModels):
         if nf[0] == 'cstring':
             return cstring_layout(nf[1], nf[2])
         return k2.layout_from_nf(nf)
+
+
+def array_facts(I, lay, rec):
+    """lengths of array members equal their count expressions (from the specification layout)"""
+    from .k2 import FnSpec
+    nf = getattr(lay, 'nf', None)
+    if not nf or nf[0] != 'struct':
+        return
+    for name, sub in nf[1]:
+        if name and sub[0] == 'array' and isinstance(rec.fields.get(name), SList):
+            cnt = sub[1]
+            if isinstance(cnt, FnSpec):
+                v = I.pure_eval(cnt.text, Frame({'ctx': rec}, None))
+            else:
+                v = cnt
+            I.ctx.assume(to_int(rec.fields[name].n) == to_int(v))
 
 
 nulpos = z3.Function('nulpos', ArrS, IntS, IntS)     # least q >= p with B[q] == 0
@@ -752,7 +773,18 @@ def _b_minmax(which):
         if len(args) == 1:
             vals = M.concrete_iter(I, args[0], node)
             if vals is None:
-                raise Unsupported('%s over symbolic sequence' % which)
+                sl = M.as_seq(I, args[0], node)
+                if not I.pure and I.ctx.branch(to_int(sl.n) <= 0):
+                    raise PyExc('ValueError', line_of(node), '%s() of empty sequence' % which)
+                m = I.ctx.const(which, IntS)
+                j = z3.Int('j!mm%d' % I.ctx.counter.setdefault('mm', 0))
+                w = I.ctx.const(which + '.at', IntS)
+                I.ctx.counter['mm'] += 1
+                ej = to_int(sl.elem(j))
+                I.ctx.assume(z3.ForAll([j], z3.Implies(z3.And(j >= 0, j < to_int(sl.n)),
+                                                       ej <= m if which == 'max' else ej >= m), patterns=[ej]))
+                I.ctx.assume(z3.And(w >= 0, w < to_int(sl.n), to_int(sl.elem(w)) == m))
+                return m
             if not vals:
                 if 'default' in kw:
                     return kw['default']
@@ -1082,6 +1114,53 @@ def _b_float(M, I, args, kw, node):
     raise Unsupported('float()')
 
 
+def _b_struct_unpack(M, I, args, kw, node):
+    """struct.unpack for the single-field integer formats (assumed contract on the struct module:
+    the two's-complement reader of the given width and byte order; struct.error on a size mismatch)"""
+    fmt, data = args
+    if not isinstance(fmt, str):
+        raise Unsupported('symbolic struct format')
+    table = {'B': (1, False), 'b': (1, True), 'H': (2, False), 'h': (2, True), 'I': (4, False), 'i': (4, True),
+             'L': (4, False), 'l': (4, True), 'Q': (8, False), 'q': (8, True)}
+    order = fmt[0] if fmt[0] in '<>=!' else '='
+    chars = fmt[1:] if fmt[0] in '<>=!@' else fmt
+    if len(chars) != 1 or chars not in table:
+        raise Unsupported('struct format %r' % fmt)
+    n, signed = table[chars]
+    data = data if isinstance(data, SBytes) else M.to_sbytes(I, data)
+    if not I.pure and not I.ctx.branch(to_int(data.n) == n):
+        raise PyExc('error', line_of(node), 'struct.error: unpack requires a buffer of %d bytes' % n)
+    I.assumptions.add('struct.unpack(%r) is the %d-byte %s-endian %s integer reader' % (fmt, n, 'little' if order in '<=' else 'big', 'signed' if signed else 'unsigned'))
+    v = rd_int(data.arr, data.off, n, order in '<=', signed)
+    return (v,)
+
+
+def _b_from_bytes(M, I, args, kw, node):
+    data = args[0]
+    order = args[1] if len(args) > 1 else kw.get('byteorder', 'big')
+    signed = kw.get('signed', False)
+    if is_sym(order) or isinstance(order, Opaque):
+        raise Unsupported('symbolic byte order')
+    data = data if isinstance(data, SBytes) else M.to_sbytes(I, data)
+    if not is_sym(data.n):
+        return rd_int(data.arr, data.off, data.n, order == 'little', signed) if data.n else 0
+    for n in range(0, 9):
+        if I.ctx.branch(to_int(data.n) == n):
+            return rd_int(data.arr, data.off, n, order == 'little', signed) if n else 0
+    raise Unsupported('int.from_bytes of more than 8 bytes of symbolic length')
+
+
+def rd_int(arr, off, n, little, signed):
+    off = to_int(off)
+    tot = z3.IntVal(0)
+    for i in range(n):
+        idx = off + (i if little else n - 1 - i)
+        tot = tot + z3.Select(arr, idx) * (256 ** i)
+    if signed:
+        tot = z3.If(tot >= 2 ** (8 * n - 1), tot - 2 ** (8 * n), tot)
+    return tot
+
+
 import itertools
 import math
 
@@ -1094,5 +1173,8 @@ _BUILTIN_TABLE = {
     type: _b_type, print: _b_print, chr: _b_chr, map: _b_map, itertools.count: _b_count,
     math.ceil: _b_ceil, float: _b_float, bytearray: _b_bytearray,
 }
+import struct as _struct_mod
+_BUILTIN_TABLE[_struct_mod.unpack] = _b_struct_unpack
+_BUILTIN_TABLE[int.from_bytes] = _b_from_bytes
 import zlib as _zlib
 _BUILTIN_TABLE[_zlib.decompressobj] = _b_decompressobj
